@@ -9,6 +9,7 @@ pub mod pcli;
 pub mod pexpr;
 pub mod pglob;
 pub mod pnum;
+pub mod pprintf;
 pub mod ptime;
 pub mod pregex;
 pub mod pwalk;
@@ -41,6 +42,7 @@ pub fn get(name: &str) -> Option<Box<dyn Prop>> {
         "C17" => Some(Box::new(pregex::PRegex::default())),
         "C14" => Some(Box::new(pnum::PNum::default())),
         "C15" => Some(Box::new(ptime::PTime::default())),
+        "C16" => Some(Box::new(pprintf::PPrintf::default())),
         "C04" => Some(Box::new(p04::P04::default())),
         "C05" => Some(Box::new(p05::P05::default())),
         "C19" => Some(Box::new(p19::P19::default())),
